@@ -321,17 +321,26 @@ Definition rkind_wf (k : rkind) : Prop :=
   match k with ErrRaw t | ErrTte t => 0 <= t | _ => True end.
 
 Lemma classify_nil n k : rkind_wf k ->
-  (classify n k = 0 <-> k = EofTte \/ (k = EofRaw /\ 4 <= n)).
+  (classify n k = 0 <-> k = EofTte /\ n = 0).
 Proof.
   intros Hwf. unfold classify. destruct k; cbn in Hwf.
-  - destruct (4 <=? n) eqn:E; [apply Z.leb_le in E | apply Z.leb_gt in E].
-    + split; auto.
-    + destruct (n =? 0); split; try discriminate; intros [H|[_ H]]; try discriminate; lia.
-  - split; auto.
-  - destruct (4 <=? n); split; try lia; intros [H|[H _]]; discriminate.
-  - split; try lia; intros [H|[H _]]; discriminate.
-  - split; try discriminate; intros [H|[H _]]; discriminate.
+  - destruct (4 <=? n) eqn:E; [|destruct (n =? 0)]; split; try discriminate; intros [H _]; discriminate.
+  - destruct (n =? 0) eqn:E; [apply Z.eqb_eq in E | apply Z.eqb_neq in E]; split; auto; try discriminate.
+    intros [_ H]; contradiction.
+  - destruct (4 <=? n); split; try lia; intros [H _]; discriminate.
+  - split; try lia; intros [H _]; discriminate.
+  - split; try discriminate; intros [H _]; discriminate.
 Qed.
+
+(** a read error that arrives while part of a frame is pending never yields the nil cause *)
+Lemma classify_inside_frame_not_nil n k : rkind_wf k -> n <> 0 -> classify n k <> 0.
+Proof. intros Hwf Hn H. apply (classify_nil n k Hwf) in H. destruct H as [_ H]. contradiction. Qed.
+
+(** before the repair every END_OF_FILE was nil, wherever it arrived *)
+Lemma classify_pinned_nil_inside_frame :
+  classify_pinned 2 EofTte = 0 /\ classify_pinned 5 EofRaw = 0
+  /\ forall n, classify_pinned n EofTte = 0.
+Proof. repeat split. Qed.
 
 (** a step that publishes on a Closed() channel: it is the current generation's channel, the
     transport goes from open to closed, and the cause is nil for Close(), the calling read
@@ -894,23 +903,30 @@ Proof.
 Qed.
 
 (** the stream ends inside a frame (4 header bytes announcing 9, one body byte, then io.EOF; or
-    two header bytes, then an END_OF_FILE exception): no Close() anywhere, yet the cause
-    published is nil and the monitor is told "closed cleanly" and stops *)
+    two header bytes, then an END_OF_FILE exception): no Close() anywhere; the cause published is
+    error 6 ("end of stream inside a frame"), the monitor is told "closed uncleanly" and goes on
+    to reopen (before the repair: nil, "closed cleanly", runner stopped - C15-eof-inside-frame-clean) *)
 Definition tr_cut_body : list ev :=
   [EOpen 1; EFeed 1 [0; 0; 0; 9; 0]; EReadErr 1 EofRaw; ELoop 1 0; ELoop 1 1; EMonRecv].
 Definition tr_cut_header : list ev :=
   [EOpen 1; EFeed 1 [0; 0]; EReadErr 1 EofTte; ELoop 1 0; ELoop 1 1; EMonRecv].
+(** the same END_OF_FILE between two frames (after one complete, well-formed frame) is a clean close *)
+Definition tr_cut_boundary : list ev :=
+  [EOpen 1; EFeed 1 [0; 0; 0; 19;  0;  0; 0; 0; 14;  0; 0; 0; 5;  95; 111; 112; 105; 100;  0; 0; 0; 1;  49];
+   EReadErr 1 EofTte; ELoop 1 0; ELoop 1 1; EMonRecv].
 
-Lemma eof_inside_frame_clean :
+Lemma eof_inside_frame_unclean :
   (exists s, run Fixed pol0 (init true false) tr_cut_body = Some s
-     /\ pub s 1%nat = [0] /\ handled s = [0] /\ mon s = MDone /\ is_open s = false)
+     /\ pub s 1%nat = [6] /\ handled s = [6] /\ mon s = MWait 0 5 /\ is_open s = false)
   /\ (exists s, run Fixed pol0 (init true false) tr_cut_header = Some s
+     /\ pub s 1%nat = [6] /\ handled s = [6] /\ mon s = MWait 0 5 /\ is_open s = false)
+  /\ (exists s, run Fixed pol0 (init true false) tr_cut_boundary = Some s
      /\ pub s 1%nat = [0] /\ handled s = [0] /\ mon s = MDone /\ is_open s = false).
-Proof. split; eexists; (split; [vm_compute; reflexivity|]); cbn; auto. Qed.
+Proof. repeat split; eexists; (split; [vm_compute; reflexivity|]); cbn; auto. Qed.
 
 (** the chain of facts behind "nil only for Close() or end of file" *)
 Lemma nil_cause_chain :
-  (forall n k, rkind_wf k -> (classify n k = 0 <-> k = EofTte \/ (k = EofRaw /\ 4 <= n)))
+  (forall n k, rkind_wf k -> (classify n k = 0 <-> k = EofTte /\ n = 0))
   /\ (forall pol m p tr s e s' o g,
         run Fixed pol (init m p) tr = Some s -> step Fixed pol s e = Some (s', o) -> pub s' g <> pub s g ->
         g = gen s /\ is_open s = true /\ is_open s' = false /\
